@@ -119,6 +119,14 @@ def run(pid, tier, seed, replay=None):
         res = family.model_check(ctx, work, "TextConv", mc, ["OffIsIdentity", "OnlyDocumentedControls"], ["ScanProgress"], "documented scanner")
         if res.violated:
             raise MachineryError("TextConv model violates %s" % res.violated)
+        # witnesses of the recorded findings (always replayed)
+        witems = [{"id": -1 - i, "inp": f["witness_text"]["inp"], "conv": f["witness_text"]["conv"], "kcmd": f["witness_text"].get("kcmd")}
+                  for i, f in enumerate(ctx.known) if f.get("witness_text")]
+        if witems:
+            wrecs = textconv.run_batch({"items": witems})
+            for r, it in zip(wrecs, witems):
+                r["kcmd"] = it["kcmd"]
+            _classify(ctx, wrecs, _validate(ctx, work, wrecs, "witness"))
         # GENERATE A: all abstract strings up to maxlen, both modes; longer ones by simulation
         ga = dict(Alphabet=ALPHA, MaxLen=plan["maxlen"], Converts={True, False}, GeDelimiterSpace=IMPL_GE_SPACE, FieldTrailingSpace=IMPL_GE_SPACE)
         got = family.generate(ctx, work, "TextConv", ga, "strings")
